@@ -166,9 +166,12 @@ func (c *connection) send(conn net.Conn, connDone chan bool) {
 		case m = <-c.client.sendFailQueue: // Send failure queue messages first
 		default:
 			select {
+			case <-connDone: // connection closed
+				return
+			case m = <-c.client.sendFailQueue: // requeued by a goroutine of an earlier connection
 			case m = <-c.client.sendQueue: // Fetch jobs
 			case <-t.C:
-				if c.isClosed {
+				if !c.isCurrent(conn) {
 					return
 				}
 				// TODO: check one-way invoke for idle detect
@@ -178,6 +181,11 @@ func (c *connection) send(conn net.Conn, connDone chan bool) {
 				}
 				continue
 			}
+		}
+		if !c.isCurrent(conn) {
+			// this connection has been closed meanwhile: leave the message to the goroutine of the current one
+			c.client.sendFailQueue <- m
+			return
 		}
 		atomic.AddInt32(&c.invokeNum, 1)
 		if c.client.config.WriteTimeout != 0 {
@@ -267,8 +275,18 @@ func (c *connection) recv(conn net.Conn, connDone chan bool) {
 func (c *connection) close(conn net.Conn) {
 	c.connLock.Lock()
 	defer c.connLock.Unlock()
-	c.isClosed = true
+	if conn == c.conn {
+		// the loss of an earlier connection must not mark the current one as closed
+		c.isClosed = true
+	}
 	if conn != nil {
 		_ = conn.Close()
 	}
+}
+
+// isCurrent reports whether conn is the client's current connection and has not been closed.
+func (c *connection) isCurrent(conn net.Conn) bool {
+	c.connLock.Lock()
+	defer c.connLock.Unlock()
+	return !c.isClosed && conn == c.conn
 }
